@@ -205,7 +205,27 @@ def main(tier, seed):
         i, b = job
         rng = random.Random("c06/%s/%s/%s" % (seed, i, b))
         prog = tooltier.backend_program(b if b != "demo_gen" else "js", seed, i, avoid_known=True, size="small", salt="c06")
+        if i % 5 == 3:
+            # a bridge module nested in another bridge module that carries an abi_rename pattern: the macro expands the inner module on
+            # its own, so nothing is inherited from the outer one (seed C06-i: the tool's AST started to inherit)
+            import spec as spec_
+            inner = spec_.Module("vf_inner")
+            inner.nested_in = prog.modules[0].name
+            iop = spec_.Opaque("VfInnerOp")
+            for mm in (spec_.Method("make", None, [("seed", ("prim", "u32"))], ("obox", "VfInnerOp", False)), spec_.Method("peek", ("ref", None), [], ("prim", "u8"))):
+                mm.owner = iop
+                iop.methods.append(mm)
+            inner.items = [iop]
+            prog.modules.append(inner)
         decorate(prog, rng, i)
+        if i % 5 == 3:
+            outer, inner = prog.modules[0], prog.modules[-1]
+            if outer.abi_pat is None:
+                outer.abi_pat = "outer_{0}"
+                outer.attrs.append('#[diplomat::abi_rename = "outer_{0}"]')
+            if inner.abi_pat is not None and rng.random() < 0.7:
+                inner.attrs = [a for a in inner.attrs if "abi_rename" not in a]
+                inner.abi_pat = None
         # demo_gen's native calls live in its js/ sub-directory, which a nested run of the js backend produces
         allsyms, enabled = model(prog, "js" if b == "demo_gen" else b)
         for t, m in prog.methods():
